@@ -93,7 +93,7 @@ pub fn execute(c: &TomlCase) -> LegReport {
         TomlHost::Nested => "toml_host_nested",
         TomlHost::Array => "toml_host_array",
     });
-    rep.steps = bytes.len() as u64;
+    rep.steps = 1; // one parser call: the toml crate has no reader seam whose events could be counted
     rep.log.bytes(&bytes);
     let text = match std::str::from_utf8(&bytes) {
         Ok(t) => t.to_string(),
@@ -258,12 +258,13 @@ fn num_text(r: &mut Rng, bits: u64) -> String {
         0 => format!("{:e}", x),
         1 => format!("{:E}", x),
         2 => {
-            let s = format!("{}", x);
-            if s.len() < 400 {
-                s
-            } else {
-                format!("{:e}", x)
+            let mut s = format!("{}", x);
+            if s.len() >= 400 {
+                s = format!("{:e}", x);
+            } else if !s.contains('.') && r.chance(2, 3) {
+                s.push_str(".0"); // keep it float-typed (a bare integer literal is a different TOML type)
             }
+            s
         }
         _ => {
             // what the toml crate itself writes
